@@ -9,11 +9,11 @@ on the model side, the schedule.  <outalloc>: the test output allocates (through
 Observation:  :ok <ntests> verdict* <wfail> <adv> <distinct> <foreign> <rest> <n> (<thread> <slot> <size>)*n   |  :hang"""
 import re
 ID = "C10"
-FLAVOURS = ["tsan", "plain"]
+FLAVOURS = ["tsan", "noexc", "plain"]      # TSan (exceptions on) | ASan+UBSan, -fno-exceptions -fno-rtti | no sanitizer, full speed
 HARNESS_SRCS = ["harness/C10.cpp"]
 PER_TIMEOUT = 60.0
 DEADLINE = "6"                      # seconds a scenario's child may take before the harness reports :hang
-HARNESS_ARGS = {"tsan": (DEADLINE,), "plain": (DEADLINE,)}
+HARNESS_ARGS = {"tsan": (DEADLINE,), "noexc": (DEADLINE,), "plain": (DEADLINE,)}
 CRASH_IS_VIOLATION = True
 RULE = ("(a) every release entry point (delete, delete[], free, realloc) x every misuse kind (overrun, other family, never allocated) x "
         "output allocating or not x position in the test (first/after other operations/followed by operations that must be skipped) x "
@@ -99,7 +99,7 @@ class Sim:
         assert self.may
         if kind == 2:
             self.emit(":w %x" % entry)
-            self.skip = True if not self.skip else True
+            self.skip = True
             return True
         fam_of_entry = [0, 1, 2, 2][entry]
         fam = fam_of_entry if kind == 0 else self.rng.choice([f for f in (0, 1, 2) if f != fam_of_entry])
@@ -203,7 +203,7 @@ def mixed(rng):
 
 def generate(tier, rng):
     out = exhaustive(rng)
-    ns, nm = (60, 80) if tier == "quick" else (1500, 2000)
+    ns, nm = (70, 90) if tier == "quick" else (700, 1000)
     for _ in range(ns):
         out.append(storm(rng, tier != "quick" or rng.random() < 0.3))
     for _ in range(nm):
@@ -304,7 +304,7 @@ def signature(s, o):
     ms = misuses(ths[0])
     tag = "misuse report under thread-safe overloads" if ms else "no misuse"
     if o.startswith("!"):
-        m = re.search(r"ThreadSanitizer: ([\w -]+?) *@ *([\w:~<>]*)", o)
+        m = re.search(r"ThreadSanitizer: ([\w -]+?)\s*@\s*(\S*)", o)
         return ("sanitizer/crash (%s): " % tag) + (m.group(1) + " in " + m.group(2) if m else o[:70])
     if o.startswith(":hang"):
         return "hang (%s)" % tag
@@ -312,25 +312,28 @@ def signature(s, o):
 
 
 def shrink(s):
+    """few, coarse candidates first (every candidate costs a process; failures that need a race are not reproducible op by
+    op): drop a worker, drop the output allocation, keep one half / three quarters of a script, single operations only once
+    the scenario is small"""
     seed, oa, ths = parse(s)
-    # drop a whole worker thread
     for i in range(len(ths) - 1, 0, -1):
         yield fmt(seed, oa, ths[:i] + ths[i + 1:])
-    # halve a script, then drop single operations (validity is re-checked by the model driver: an invalid candidate is
-    # judged "spec true" and therefore never kept, except for crashes -- keep those structurally valid here)
+    if oa != "0":
+        yield fmt(seed, "0", ths)
     for i, ops in enumerate(ths):
-        if len(ops) >= 4:
-            for part in (ops[:len(ops) // 2], ops[len(ops) // 2:]):
+        n = len(ops)
+        if n >= 4:
+            q = n // 4
+            for part in (ops[:n // 2], ops[n // 2:], ops[q:], ops[:n - q], ops[:q] + ops[2 * q:], ops[:2 * q] + ops[3 * q:]):
                 c = fmt(seed, oa, ths[:i] + [part] + ths[i + 1:])
                 if py_valid(c):
                     yield c
-    for i, ops in enumerate(ths):
-        for j in range(len(ops)):
-            c = fmt(seed, oa, ths[:i] + [ops[:j] + ops[j + 1:]] + ths[i + 1:])
-            if py_valid(c):
-                yield c
-    if oa != "0":
-        yield fmt(seed, "0", ths)
+    if sum(len(o) for o in ths) <= 24:
+        for i, ops in enumerate(ths):
+            for j in range(len(ops)):
+                c = fmt(seed, oa, ths[:i] + [ops[:j] + ops[j + 1:]] + ths[i + 1:])
+                if py_valid(c):
+                    yield c
 
 
 def py_valid(s):
@@ -359,9 +362,6 @@ def py_valid(s):
                 slots.pop(o[1], None)
         if i and misuses(ops):
             return False
-        if i == 0:
-            # recompute skipping for thread 0 with the textbook reading
-            pass
     return True
 
 
